@@ -1,7 +1,7 @@
 #!/bin/bash
 # usage: tools/try_mutant.sh <patch.diff> <check-id>...   applies the patch to /repo, runs the quick checks, undoes it
 set -u
-patch=$1; shift
+patch=$(readlink -f "$1"); shift
 cd /repo || exit 2
 if ! git diff --quiet; then echo "/repo has uncommitted changes"; exit 2; fi
 if ! git apply --check "$patch" 2>/dev/null; then echo "patch does not apply"; exit 2; fi
